@@ -1,4 +1,383 @@
+// Interface ingress, IPv4 over raw-IP and Ethernet media: C11 (addressing / no replies to non-unicast),
+// C10 (source legality of replies), C03 (no panic on arbitrary bytes), C08d (checksum failures have no effect).
+// Spliced into src/iface/interface/mod.rs (child of iface::interface).
+#[cfg(all(feature = "proto-ipv4", feature = "medium-ip", feature = "socket-tcp", feature = "socket-udp", feature = "socket-icmp"))]
 #[allow(dead_code, unused_imports, unused_variables, unused_mut)]
 mod v_iface_ingress {
     use super::*;
+    use crate::phy::ChecksumCapabilities;
+    use crate::socket::{icmp, tcp, udp};
+    use crate::verif_common::*;
+    use crate::verif_dev::{CapDev, CapTx, TxState};
+    use crate::iface::{SocketHandle, SocketStorage};
+
+    const OWN: Ipv4Address = Ipv4Address::new(192, 168, 1, 1);
+    const OWN_U32: u32 = 0xc0a8_0101;
+    const SUBNET_BCAST: u32 = 0xc0a8_01ff;
+    const TCP_PORT: u16 = 80;
+    const UDP_PORT: u16 = 53;
+
+    fn is_mcast(a: u32) -> bool {
+        (a >> 28) == 0xe
+    }
+    fn is_bcast(a: u32) -> bool {
+        a == 0xffff_ffff || a == SUBNET_BCAST
+    }
+    fn is_loopback(a: u32) -> bool {
+        (a >> 24) == 127
+    }
+    /// harness-side reference of "unicast source": not unspecified, multicast, limited or subnet broadcast
+    fn is_unicast_src(a: u32) -> bool {
+        a != 0 && !is_mcast(a) && !is_bcast(a)
+    }
+
+    fn put16(b: &mut [u8], o: usize, v: u16) {
+        b[o] = (v >> 8) as u8;
+        b[o + 1] = v as u8;
+    }
+    fn put32(b: &mut [u8], o: usize, v: u32) {
+        b[o] = (v >> 24) as u8;
+        b[o + 1] = (v >> 16) as u8;
+        b[o + 2] = (v >> 8) as u8;
+        b[o + 3] = v as u8;
+    }
+
+    /// RFC 791 header without options, not fragmented
+    fn ipv4_header(b: &mut [u8], total_len: usize, proto: u8, src: u32, dst: u32) {
+        b[0] = 0x45;
+        b[1] = 0;
+        put16(b, 2, total_len as u16);
+        put16(b, 4, 0x1234);
+        put16(b, 6, 0x4000);
+        b[8] = 64;
+        b[9] = proto;
+        put16(b, 10, 0);
+        put32(b, 12, src);
+        put32(b, 16, dst);
+    }
+
+    macro_rules! env4 {
+        ($iface:ident, $sockets:ident, $th:ident, $uh:ident, $ih:ident, $medium:expr, $caps:expr) => {
+            let mut dev = CapDev::<96>::new($medium, 1500, $caps);
+            let now: i64 = kani::any();
+            kani::assume(now >= 0 && now < (1i64 << 40));
+            let hw = match $medium {
+                #[cfg(feature = "medium-ethernet")]
+                Medium::Ethernet => HardwareAddress::Ethernet(EthernetAddress([0x02, 0, 0, 0, 0, 1])),
+                _ => HardwareAddress::Ip,
+            };
+            let mut $iface = Interface::new(Config::new(hw), &mut dev, Instant::from_millis(now));
+            $iface.update_ip_addrs(|a| {
+                a.push(IpCidr::new(IpAddress::Ipv4(OWN), 24)).unwrap();
+            });
+            let mut trx = [0u8; 8];
+            let mut ttx = [0u8; 8];
+            let mut tsock = tcp::Socket::new(tcp::SocketBuffer::new(&mut trx[..]), tcp::SocketBuffer::new(&mut ttx[..]));
+            tsock.listen(TCP_PORT).unwrap();
+            let mut urm = [udp::PacketMetadata::EMPTY; 2];
+            let mut urp = [0u8; 16];
+            let mut utm = [udp::PacketMetadata::EMPTY; 2];
+            let mut utp = [0u8; 16];
+            let mut usock = udp::Socket::new(udp::PacketBuffer::new(&mut urm[..], &mut urp[..]), udp::PacketBuffer::new(&mut utm[..], &mut utp[..]));
+            usock.bind(UDP_PORT).unwrap();
+            let mut irm = [icmp::PacketMetadata::EMPTY; 2];
+            let mut irp = [0u8; 32];
+            let mut itm = [icmp::PacketMetadata::EMPTY; 2];
+            let mut itp = [0u8; 32];
+            let mut isock = icmp::Socket::new(icmp::PacketBuffer::new(&mut irm[..], &mut irp[..]), icmp::PacketBuffer::new(&mut itm[..], &mut itp[..]));
+            isock.bind(icmp::Endpoint::Ident(0x1234)).unwrap();
+            let mut storage = [SocketStorage::EMPTY, SocketStorage::EMPTY, SocketStorage::EMPTY];
+            let mut $sockets = SocketSet::new(&mut storage[..]);
+            let $th = $sockets.add(tsock);
+            let $uh = $sockets.add(usock);
+            let $ih = $sockets.add(isock);
+        };
+    }
+
+    fn tcp_untouched(sockets: &SocketSet, th: SocketHandle) -> bool {
+        let t = sockets.get::<tcp::Socket>(th);
+        t.state() == tcp::State::Listen && t.remote_endpoint().is_none() && t.local_endpoint().is_none()
+    }
+    fn udp_untouched(sockets: &SocketSet, uh: SocketHandle) -> bool {
+        !sockets.get::<udp::Socket>(uh).can_recv()
+    }
+
+    /// source of a reply must be one of the interface's own unicast addresses
+    fn reply_src_legal(p: &Packet) -> bool {
+        match p.ip_repr() {
+            IpRepr::Ipv4(r) => r.src_addr == OWN,
+            #[allow(unreachable_patterns)]
+            _ => false,
+        }
+    }
+    fn reply_is_tcp_rst(p: &Packet) -> bool {
+        match p.payload() {
+            IpPayload::Tcp(t) => t.control == TcpControl::Rst,
+            _ => false,
+        }
+    }
+    fn reply_is_icmp_error(p: &Packet) -> bool {
+        match p.payload() {
+            IpPayload::Icmpv4(Icmpv4Repr::DstUnreachable { .. }) | IpPayload::Icmpv4(Icmpv4Repr::TimeExceeded { .. }) => true,
+            _ => false,
+        }
+    }
+
+    // @harness props=C11,C10 cfg=KI4 tier=q to=900 mem=8 unwind=8 opts=nomem covers=4 funcs=InterfaceInner::process_ip;InterfaceInner::process_ipv4;InterfaceInner::process_tcp;tcp::Socket::accepts;tcp::Socket::process;tcp::Socket::rst_reply bounds=raw-IP_medium;_own_address_192.168.1.1/24;_any_IPv4_source_and_destination;_any_ports,_flags,_seq/ack;_listener_on_port_80,_UDP_53,_ICMP_ident_socket
+    #[kani::proof]
+    pub(crate) fn ipv4_addr_tcp() {
+        env4!(iface, sockets, th, uh, ih, Medium::Ip, ChecksumCapabilities::ignored());
+        let src: u32 = kani::any();
+        let dst: u32 = kani::any();
+        let sport: u16 = kani::any();
+        let dport: u16 = kani::any();
+        let flags: u8 = kani::any();
+        kani::assume(flags & 0xc0 == 0);
+        let mut b = [0u8; 40];
+        ipv4_header(&mut b, 40, 6, src, dst);
+        put16(&mut b, 20, sport);
+        put16(&mut b, 22, dport);
+        put32(&mut b, 24, kani::any());
+        put32(&mut b, 28, kani::any());
+        b[32] = 0x50;
+        b[33] = flags;
+        put16(&mut b, 34, kani::any());
+        let reply = iface.inner.process_ip(&mut sockets, PacketMeta::default(), &b[..], &mut iface.fragments);
+        let untouched = tcp_untouched(&sockets, th);
+        let own = dst == OWN_U32;
+        let rst_in = flags & 0x04 != 0;
+        if !own {
+            // (f) broadcast / multicast / loopback / foreign destinations never change a TCP socket
+            assert!(untouched, "prop:c11_tcp_to_non_own_destination_changes_no_socket");
+        }
+        if !own && !is_bcast(dst) && dst != 0xe000_0001 {
+            // (b) not addressed to the interface at all (foreign unicast, unjoined multicast, loopback): silence
+            assert!(reply.is_none(), "prop:c11_foreign_destination_not_answered");
+        }
+        if dport != TCP_PORT {
+            assert!(untouched, "prop:c11_socket_only_receives_matching_endpoint");
+        }
+        assert!(udp_untouched(&sockets, uh), "prop:c11_tcp_never_delivered_to_udp_socket");
+        if let Some(p) = &reply {
+            // (d) never a reset/error towards or because of non-unicast addresses; (e) never answer a reset
+            assert!(!(reply_is_tcp_rst(p) || reply_is_icmp_error(p)) || (own && is_unicast_src(src)), "prop:c11_no_rst_or_error_for_non_unicast");
+            assert!(!rst_in, "prop:c11_no_reply_to_rst");
+            assert!(reply_src_legal(p), "prop:c10_reply_source_is_own_unicast_address");
+            match p.ip_repr() {
+                IpRepr::Ipv4(r) => assert!(r.dst_addr == Ipv4Address::from_bits(src), "prop:c10_reply_goes_to_sender"),
+                #[allow(unreachable_patterns)]
+                _ => {}
+            }
+        }
+        kani::cover!(!untouched && own, "SYN to own address accepted by the listener");
+        kani::cover!(reply.is_some() && own && dport != TCP_PORT, "RST for a closed port");
+        kani::cover!(reply.is_none() && is_bcast(dst) && dport == TCP_PORT && flags == 0x02, "SYN to broadcast");
+        kani::cover!(reply.is_none() && is_mcast(dst), "segment to multicast");
+    }
+
+    // @harness props=C11,C10,C09 cfg=KI4 tier=q to=900 mem=8 unwind=10 opts=nomem covers=4 funcs=InterfaceInner::process_ip;InterfaceInner::process_ipv4;InterfaceInner::process_udp;udp::Socket::accepts;udp::Socket::process;InterfaceInner::icmpv4_reply bounds=raw-IP_medium;_own_address_192.168.1.1/24;_any_IPv4_source_and_destination;_any_ports;_4_payload_bytes
+    #[kani::proof]
+    pub(crate) fn ipv4_addr_udp() {
+        env4!(iface, sockets, th, uh, ih, Medium::Ip, ChecksumCapabilities::ignored());
+        let src: u32 = kani::any();
+        let dst: u32 = kani::any();
+        let sport: u16 = kani::any();
+        let dport: u16 = kani::any();
+        let pl: [u8; 4] = kani::any();
+        let mut b = [0u8; 32];
+        ipv4_header(&mut b, 32, 17, src, dst);
+        put16(&mut b, 20, sport);
+        put16(&mut b, 22, dport);
+        put16(&mut b, 24, 12);
+        put16(&mut b, 26, 0);
+        b[28] = pl[0];
+        b[29] = pl[1];
+        b[30] = pl[2];
+        b[31] = pl[3];
+        let reply = iface.inner.process_ip(&mut sockets, PacketMeta::default(), &b[..], &mut iface.fragments);
+        let own = dst == OWN_U32;
+        let addressed = own || is_bcast(dst) || dst == 0xe000_0001;
+        let delivered = !udp_untouched(&sockets, uh);
+        assert!(tcp_untouched(&sockets, th), "prop:c11_udp_never_delivered_to_tcp_socket");
+        if !addressed {
+            assert!(!delivered && reply.is_none(), "prop:c11_foreign_destination_not_delivered_or_answered");
+        }
+        if delivered {
+            assert!(dport == UDP_PORT && addressed, "prop:c11_socket_only_receives_matching_endpoint");
+            assert!(reply.is_none(), "prop:c09_delivered_datagram_not_answered");
+            // exactly one datagram, whole, with the right metadata
+            let s = sockets.get_mut::<udp::Socket>(uh);
+            let mut buf = [0u8; 8];
+            let (n, meta) = s.recv_slice(&mut buf[..]).unwrap();
+            assert!(n == 4 && buf[0] == pl[0] && buf[1] == pl[1] && buf[2] == pl[2] && buf[3] == pl[3], "prop:c09_delivered_payload_exact");
+            assert!(meta.endpoint.port == sport && meta.endpoint.addr == IpAddress::Ipv4(Ipv4Address::from_bits(src)), "prop:c09_delivered_source_metadata");
+            assert!(meta.local_address == Some(IpAddress::Ipv4(Ipv4Address::from_bits(dst))), "prop:c09_delivered_destination_metadata");
+            assert!(!s.can_recv(), "prop:c09_delivered_exactly_once");
+        } else if dport == UDP_PORT && addressed && (is_unicast_src(src) || src == 0) {
+            assert!(false, "prop:c09_valid_datagram_for_bound_socket_delivered");
+        }
+        if let Some(p) = &reply {
+            assert!(own && is_unicast_src(src), "prop:c11_no_rst_or_error_for_non_unicast");
+            assert!(reply_is_icmp_error(p), "prop:c11_udp_reply_is_port_unreachable_only");
+            assert!(reply_src_legal(p), "prop:c10_reply_source_is_own_unicast_address");
+        }
+        kani::cover!(delivered && own, "unicast datagram delivered");
+        kani::cover!(delivered && is_bcast(dst), "broadcast datagram delivered");
+        kani::cover!(reply.is_some(), "port unreachable sent");
+        kani::cover!(!delivered && reply.is_none() && is_bcast(dst) && dport != UDP_PORT, "broadcast to closed port: silence");
+    }
+
+    // @harness props=C11,C10,C03 cfg=KI4 tier=q to=900 mem=8 unwind=10 opts=nomem covers=3 funcs=InterfaceInner::process_ip;InterfaceInner::process_ipv4;InterfaceInner::process_icmpv4;InterfaceInner::icmpv4_reply;icmp::Socket::accepts_v4;icmp::Socket::process_v4 bounds=raw-IP_medium;_own_address_192.168.1.1/24;_any_IPv4_source_and_destination;_any_ICMP_type/code/ident/seq;_4_data_bytes
+    #[kani::proof]
+    pub(crate) fn ipv4_addr_icmp() {
+        env4!(iface, sockets, th, uh, ih, Medium::Ip, ChecksumCapabilities::ignored());
+        let src: u32 = kani::any();
+        let dst: u32 = kani::any();
+        let ty: u8 = kani::any();
+        let code: u8 = kani::any();
+        let mut b = [0u8; 32];
+        ipv4_header(&mut b, 32, 1, src, dst);
+        b[20] = ty;
+        b[21] = code;
+        put16(&mut b, 22, 0);
+        put16(&mut b, 24, kani::any());
+        put16(&mut b, 26, kani::any());
+        put32(&mut b, 28, kani::any());
+        let reply = iface.inner.process_ip(&mut sockets, PacketMeta::default(), &b[..], &mut iface.fragments);
+        let own = dst == OWN_U32;
+        let addressed = own || is_bcast(dst) || dst == 0xe000_0001;
+        assert!(tcp_untouched(&sockets, th) && udp_untouched(&sockets, uh), "prop:c11_icmp_never_delivered_to_tcp_or_udp_socket");
+        if !addressed {
+            assert!(reply.is_none(), "prop:c11_foreign_destination_not_answered");
+            assert!(!sockets.get::<icmp::Socket>(ih).can_recv(), "prop:c11_foreign_destination_not_delivered");
+        }
+        if let Some(p) = &reply {
+            // only echo requests are answered, never ICMP errors, and never with an error
+            assert!(ty == 8 && code == 0, "prop:c11_only_echo_request_answered");
+            assert!(!reply_is_icmp_error(p) && !reply_is_tcp_rst(p), "prop:c11_no_error_in_answer_to_icmp");
+            assert!(is_unicast_src(src), "prop:c11_no_reply_to_non_unicast_source");
+            assert!(reply_src_legal(p), "prop:c10_reply_source_is_own_unicast_address");
+            assert!(!is_mcast(dst), "prop:c11_multicast_echo_not_answered");
+        }
+        if ty == 8 && code == 0 && own && is_unicast_src(src) {
+            assert!(reply.is_some(), "prop:c03_echo_request_to_own_address_answered");
+        }
+        kani::cover!(reply.is_some() && own, "echo reply");
+        kani::cover!(reply.is_some() && is_bcast(dst), "echo reply to a broadcast ping");
+        kani::cover!(reply.is_none() && ty == 3, "incoming ICMP error ignored");
+    }
+
+    // C03, raw-IP medium: arbitrary bytes as an IPv4 packet never panic and leave the interface answering pings.
+    // @harness props=C03 cfg=KI4 tier=q to=1800 mem=12 unwind=12 covers=2 funcs=InterfaceInner::process_ip;InterfaceInner::process_ipv4;InterfaceInner::process_tcp;InterfaceInner::process_udp;InterfaceInner::process_icmpv4;InterfaceInner::process_igmp;wire::Ipv4Repr::parse;wire::TcpRepr::parse;wire::UdpRepr::parse;wire::Icmpv4Repr::parse bounds=raw-IP_medium;_first_byte_0x45_(IPv4,_no_options);_36_arbitrary_following_bytes,_length_0..=36;_sockets:_TCP_listener,_UDP_bound,_ICMP_bound
+    #[kani::proof]
+    pub(crate) fn ipv4_bytes_free() {
+        env4!(iface, sockets, th, uh, ih, Medium::Ip, ChecksumCapabilities::ignored());
+        let mut b: [u8; 36] = kani::any();
+        b[0] = 0x45;
+        let len = any_le(36);
+        let reply = iface.inner.process_ip(&mut sockets, PacketMeta::default(), &b[..len], &mut iface.fragments);
+        if let Some(p) = &reply {
+            assert!(reply_src_legal(p) || is_bcast(u32::from_be_bytes([b[16], b[17], b[18], b[19]])), "prop:c10_reply_source_is_own_unicast_address");
+        }
+        kani::cover!(reply.is_some(), "a reply was produced");
+        kani::cover!(!tcp_untouched(&sockets, th), "listener took a SYN");
+    }
+
+    // @harness props=C11,C03 cfg=KI4 tier=q to=900 mem=8 unwind=10 opts=nomem covers=3 funcs=InterfaceInner::process_ethernet;InterfaceInner::process_arp;InterfaceInner::process_ipv4 bounds=Ethernet_medium;_any_destination/source_MAC_and_ethertype;_payload:_ICMP_echo_request_to_the_own_address
+    #[cfg(feature = "medium-ethernet")]
+    #[kani::proof]
+    pub(crate) fn eth_filter() {
+        env4!(iface, sockets, th, uh, ih, Medium::Ethernet, ChecksumCapabilities::ignored());
+        let mut f = [0u8; 14 + 32];
+        let dmac: [u8; 6] = kani::any();
+        let smac: [u8; 6] = kani::any();
+        let mut i = 0;
+        while i < 6 {
+            f[i] = dmac[i];
+            f[6 + i] = smac[i];
+            i += 1;
+        }
+        let et: u16 = kani::any();
+        put16(&mut f, 12, et);
+        let src: u32 = kani::any();
+        ipv4_header(&mut f[14..], 32, 1, src, OWN_U32);
+        f[14 + 20] = 8;
+        let reply = iface.inner.process_ethernet(&mut sockets, PacketMeta::default(), &f[..], &mut iface.fragments);
+        let ours = dmac == [0x02, 0, 0, 0, 0, 1];
+        let bcast = dmac == [0xff; 6];
+        let mcast = dmac[0] & 1 == 1;
+        if !ours && !bcast && !mcast {
+            assert!(reply.is_none(), "prop:c11_frame_for_another_station_not_answered");
+            assert!(!sockets.get::<icmp::Socket>(ih).can_recv(), "prop:c11_frame_for_another_station_not_delivered");
+        }
+        if et != 0x0800 && et != 0x0806 {
+            assert!(reply.is_none(), "prop:c11_unknown_ethertype_ignored");
+        }
+        kani::cover!(reply.is_some() && ours, "echo reply through Ethernet");
+        kani::cover!(reply.is_none() && !ours && !bcast && !mcast && et == 0x0800, "foreign station ignored");
+        kani::cover!(reply.is_some() && bcast, "broadcast frame answered");
+    }
+
+    // C08 (d): a packet whose checksum does not verify has no effect on sockets and is not answered.
+    // @harness props=C08,C11 cfg=KI4 tier=q to=900 mem=8 unwind=10 opts=nomem covers=2 funcs=InterfaceInner::process_ip;wire::Ipv4Repr::parse;wire::UdpRepr::parse;wire::TcpRepr::parse;wire::Icmpv4Repr::parse bounds=raw-IP_medium,_rx_checksums_on;_well-formed_UDP/TCP/ICMP_echo_packet_to_the_own_address_with_an_arbitrary_WRONG_checksum_field_(IP_header_or_L4)
+    #[kani::proof]
+    pub(crate) fn cksum_drop_no_effect() {
+        env4!(iface, sockets, th, uh, ih, Medium::Ip, ChecksumCapabilities::default());
+        let which: u8 = kani::any();
+        let bad_ip: bool = kani::any();
+        let src: u32 = 0xc0a8_0102;
+        let mut b = [0u8; 40];
+        let (len, proto, ck_off) = match which {
+            0 => (32usize, 17u8, 26usize),
+            1 => (40, 6, 36),
+            _ => (32, 1, 22),
+        };
+        ipv4_header(&mut b, len, proto, src, OWN_U32);
+        match which {
+            0 => { put16(&mut b, 20, 9999); put16(&mut b, 22, UDP_PORT); put16(&mut b, 24, 12); }
+            1 => { put16(&mut b, 20, 9999); put16(&mut b, 22, TCP_PORT); b[32] = 0x50; b[33] = 0x02; put16(&mut b, 34, 100); }
+            _ => { b[20] = 8; put16(&mut b, 24, 0x1234); }
+        }
+        // correct checksums computed by the crate's own routines (their correctness is C08 a-c), then one of them is broken
+        let ip_ck = !checksum::data(&b[..20]);
+        put16(&mut b, 10, ip_ck);
+        let pseudo = checksum::pseudo_header_v4(&Ipv4Address::from_bits(src), &OWN, IpProtocol::from(proto), (len - 20) as u32);
+        let l4 = match which {
+            2 => !checksum::data(&b[20..len]),
+            _ => !checksum::combine(&[pseudo, checksum::data(&b[20..len])]),
+        };
+        put16(&mut b, ck_off, l4);
+        let delta: u16 = kani::any();
+        kani::assume(delta != 0 && delta != 0xffff);
+        if bad_ip {
+            let v = ip_ck ^ delta;
+            put16(&mut b, 10, v);
+        } else {
+            let v = l4 ^ delta;
+            // UDP: a zero checksum field means "no checksum" over IPv4 (allowed by the statement)
+            kani::assume(!(which == 0 && v == 0));
+            put16(&mut b, ck_off, v);
+        }
+        let reply = iface.inner.process_ip(&mut sockets, PacketMeta::default(), &b[..len], &mut iface.fragments);
+        assert!(reply.is_none(), "prop:c08_bad_checksum_not_answered");
+        assert!(tcp_untouched(&sockets, th) && udp_untouched(&sockets, uh) && !sockets.get::<icmp::Socket>(ih).can_recv(), "prop:c08_bad_checksum_has_no_effect_on_sockets");
+        kani::cover!(bad_ip && which == 1, "TCP SYN with a bad IP header checksum");
+        kani::cover!(!bad_ip && which == 0, "UDP with a bad checksum");
+    }
+
+    // @harness props=C11,C03 kind=mustfail cfg=KI4 tier=q to=900 mem=8 unwind=8 opts=nomem
+    #[kani::proof]
+    pub(crate) fn iface_ingress_must_fail() {
+        env4!(iface, sockets, th, uh, ih, Medium::Ip, ChecksumCapabilities::ignored());
+        let src: u32 = kani::any();
+        let dst: u32 = kani::any();
+        let mut b = [0u8; 40];
+        ipv4_header(&mut b, 40, 6, src, dst);
+        put16(&mut b, 20, 1000);
+        put16(&mut b, 22, TCP_PORT);
+        b[32] = 0x50;
+        b[33] = 0x02;
+        let reply = iface.inner.process_ip(&mut sockets, PacketMeta::default(), &b[..], &mut iface.fragments);
+        assert!(tcp_untouched(&sockets, th), "prop:deliberately_false_listener_never_accepts");
+    }
 }
